@@ -105,6 +105,10 @@ inductive Stmt where
   | setSpace (r c : Ex)
   /-- `vt.activeScreen[r][c].Style = vt.cursor.Style` -/
   | setPen (r c : Ex)
+  /-- `ch := vt.activeScreen[r][c]` (a copy of the cell, held in the frame) -/
+  | loadCell (r c : Ex)
+  /-- `vt.activeScreen[r][c].Character = ch.Character` -/
+  | setCharFromCell (r c : Ex)
   | prim (p : Prim)
   /-- `vt.f()` / `vt.f(arg)` -/
   | call (f : Fn) (arg : Option Ex)
